@@ -1,7 +1,8 @@
 /-
 C03 — tlx/sort/strings/radix_sort.hpp and the front-end tlx/sort/strings.hpp.
 
-A `RadixStep_*` constructor becomes one distribution (`buckets`) plus the LCP stores of the step;
+A `RadixStep_*` constructor becomes one distribution (`scatterBuckets` out of place,
+`permuteInPlace` in place) plus the LCP stores of the step;
 the explicit `radixstack` loop becomes recursion over the buckets `1 … R-1` of a step (`level` =
 `radixstack.size()` while the step is on top, needed for the memory accounting), each bucket being
 handled by the branch the C++ loop takes for it.  `memory` is the `size_t` argument (0 = no limit).
@@ -29,7 +30,7 @@ def ce8Loop (c : Consts) (withLcp : Bool) (step : Nat) :
     Nat → List α → List Nat → Nat → Nat → Nat → List α × List Nat
   | 0, ss, l, _, _, _ => (ss, l)
   | fuel + 1, ss, l, depth, level, memory =>
-    let bs := (buckets 256 (fun x => key8 (str x) depth) ss).toList
+    let bs := scatterBuckets 256 (fun x => key8 (str x) depth) ss
     let sizes := bs.map List.length
     let l1 := if withLcp then stepLcp8 sizes ss.length depth l else l
     mapBuckets bs (splitBy sizes l1) fun idx b v =>
@@ -177,7 +178,7 @@ def ce3Loop (c : Consts) (withLcp : Bool) :
     Nat → List α → List Nat → Nat → Nat → Nat → List α × List Nat
   | 0, ss, l, _, _, _ => (ss, l)
   | fuel + 1, ss, l, depth, level, memory =>
-    let bs := (buckets 65536 (fun x => key16 (str x) depth) ss).toList
+    let bs := scatterBuckets 65536 (fun x => key16 (str x) depth) ss
     let sizes := bs.map List.length
     let l1 := if withLcp then stepLcp16 sizes depth l else l
     mapBuckets bs (splitBy sizes l1) fun idx b v =>
